@@ -629,6 +629,11 @@ class Exec:
         if attr == "append" and isinstance(base, SeqV) and base.kind == "list" and base.t.eq(S.c_empty) \
                 and not isinstance(args[0], (Opt, BoolV)):
             return TupV([args[0]], "list")  # the empty list literal receiving a non-int: a fixed-length heterogeneous list
+        if attr == "setdefault" and isinstance(base, MapV) and base.payload == "int" and len(args) == 2:
+            # as a statement: insert the default only where the key is absent
+            k = S.as_int(self.need_int(args[0], st, node))
+            cur = S.as_int(base.get(k))
+            return base.set(k, Opt(False, z3.If(z3.Select(base.has, k), cur, S.as_int(self.need_int(args[1], st, node)))))
         if attr == "reverse" and isinstance(base, SliceSeqV):
             self.nfresh += 1
             out = SliceSeqV.fresh(f"rev!{self.nfresh}", base.n)
@@ -1309,24 +1314,11 @@ class Exec:
         if isinstance(it, ast.Call) and isinstance(it.func, ast.Attribute) and it.func.attr in ("items", "keys"):
             base = self.eval(it.func.value, st)
             if isinstance(base, MapV):
-                # abstract iteration over the key set of the map *as it was at loop entry*:
-                # the k-th visited key is an arbitrary key; distinctness is not used.
-                nkeys = self.fresh_int("nkeys")
                 name = it.func.value.id if isinstance(it.func.value, ast.Name) else None
-                mode = it.func.attr
-
-                def elem(k, s, base=base, name=name):
-                    key = self.fresh_int("key")
-                    s.pc.append(z3.Select(base.has, key))
-                    cur = s.env[name] if name else base
-                    s.env["itkey"] = I(key)
-                    if mode == "keys":
-                        return I(key)
-                    return TupV([I(key), cur.get(key)])
-
-                st.pc.append(nkeys >= 0)
-                return {"n": nkeys, "elem": elem}
+                return self.iter_map(base, name, it.func.attr, st)
         v = self.eval(it, st)
+        if isinstance(v, MapV):
+            return self.iter_map(v, it.id if isinstance(it, ast.Name) else None, "keys", st)
         if isinstance(v, tuple) and v and v[0] == "parts":
             # the groups of partition_all: their number is ceil(n / k); a group itself is an opaque value
             return {"n": S.ceildiv(v[2], v[1]), "elem": lambda k, s: ("part", v[1], v[2], k)}
@@ -1337,6 +1329,33 @@ class Exec:
         if isinstance(v, (SliceSeqV, TupSeqV, RowsV)):
             return {"n": v.n, "elem": lambda k, s: v.get(k)}
         raise Unsupported(f"iteration over {ast.dump(it)[:80]} line {node.lineno}")
+
+    def iter_map(self, base, name, mode, st):
+        """iteration over the key set of a map *as it was at loop entry*: the visited keys are the elements of a ghost
+        sequence `itkeys` (readable from loop invariants) that enumerates exactly the key set -- every element is a key
+        and every key occurs at some position (Skolem function) -- in an arbitrary order; distinctness is not used."""
+        self.nfresh += 1
+        keys = z3.Const(f"itkeys!{self.nfresh}", S.SeqSort)
+        pos = z3.Function(f"itkeypos!{self.nfresh}", z3.IntSort(), z3.IntSort())
+        nkeys = S.f_len(keys)
+        i, q = z3.Int(f"ik!{self.nfresh}"), z3.Int(f"iq!{self.nfresh}")
+        st.pc.append(nkeys >= 0)
+        st.pc.append(z3.ForAll([i], z3.Implies(z3.And(0 <= i, i < nkeys), z3.Select(base.has, S.f_at(keys, i))),
+                               patterns=[S.f_at(keys, i)]))
+        st.pc.append(z3.ForAll([q], z3.Implies(z3.Select(base.has, q),
+                                               z3.And(0 <= pos(q), pos(q) < nkeys, S.f_at(keys, pos(q)) == q)),
+                               patterns=[z3.Select(base.has, q)]))
+        st.env["itkeys"] = SeqV(keys, "tuple")
+
+        def elem(k, s):
+            key = S.f_at(keys, k)
+            cur = s.env[name] if name else base
+            s.env["itkey"] = I(key)
+            if mode == "keys":
+                return I(key)
+            return TupV([I(key), cur.get(key)])
+
+        return {"n": nkeys, "elem": elem}
 
     def stmt_While(self, node, st):
         if node.orelse:
@@ -1933,6 +1952,13 @@ class Exec:
             if z3.is_int_value(sidx):
                 return I(S.f_at(base.t, sidx))
             return I(S.pyat(base, idx))
+        if isinstance(base, ObjV):
+            # an assumed model of a record's indexing, declared by the contract as externals["Cls.__getitem__"]
+            ext = getattr(self.c.cls, "externals", None) or {}
+            key = f"{base.cls}.__getitem__"
+            if key in ext:
+                self.assumed.add(f"{key}: {(ext[key].__doc__ or '').strip()}")
+                return wrap_any(ext[key](self, st, [base, k], {}, node))
         raise Unsupported(f"subscript on {base!r} line {node.lineno}")
 
     def subslice(self, base, lo, hi, stp, st, node):
